@@ -89,9 +89,15 @@ def check_type(value: Any, attr_type: Type) -> bool:
                         if not check_type(item, attr_type.__args__[i]):
                             return False
             elif attr_type.__origin__ == type:
-                if attr_type.__args__[0] is not Any and not issubclass(
-                    value, attr_type.__args__[0]
-                ):
+                class_type = attr_type.__args__[0]
+                # `issubclass` refuses parameterised generics (`Type[List[int]]`);
+                # the subclass relation is then with the underlying class.
+                class_origin = getattr(class_type, "__origin__", None)
+                if class_origin is not None and class_origin is not Union:
+                    if not isinstance(class_origin, type):
+                        return False
+                    class_type = class_origin
+                if class_type is not Any and not issubclass(value, class_type):
                     return False
 
             return True
